@@ -87,6 +87,65 @@ def churn_episode(rng):
     return ops
 
 
+ADDRS = ["http://127.0.0.1:1", "http://127.0.0.1:1/blue", "http://127.0.0.1:1/green", "https://127.0.0.1:1/blue", "http://127.0.0.1:2", "http://[::1]:3/x"]
+
+
+def post_episode(rng):
+    """the admin handlers on request bodies that carry only some of the keys (an absent weight is the default, an
+    absent name or address is a refusal), re-adds on an address that shares its host with a removed one, removes of
+    names that were never there — every answer and the listing after it depend on that request and the registry only"""
+    ops = ["adm new - A= D="]
+    names = ["heavy", "plain", "tmp", "blue", "green", "x y"]
+    for _ in range(rng.randint(6, 16)):
+        k = rng.random()
+        n = rng.choice(names)
+        if k < 0.55:
+            nm = lbgen.enc(n) if rng.random() < 0.9 else "-"
+            ad = lbgen.enc(rng.choice(ADDRS)) if rng.random() < 0.85 else "-"
+            wt = rng.choice(["-", "-", "7", "1", "0", "-3", "12"])
+            ops.append("adm padd %s %s %s" % (nm, ad, wt))
+        elif k < 0.8:
+            ops.append("adm prm %s" % (lbgen.enc(n) if rng.random() < 0.9 else "-"))
+        else:
+            ops.append("adm padd - - -")
+    return ops
+
+
+def post_oracle(ep, outs):
+    from urllib.parse import unquote as uq
+    reg = {}
+    fails = []
+    for l, o in zip(C.op_lines(ep)[1:], outs[1:]):
+        w = l.split()
+        dec = lambda t: "" if t == "-" else uq(t)
+        want = None
+        if w[1] == "padd":
+            name, addr = dec(w[2]), dec(w[3])
+            wt = 0 if w[4] == "-" else int(w[4])
+            if name and addr and name not in reg:
+                reg[name] = (max(1, wt), addr)
+                want = 201
+            else:
+                want = 400
+        elif w[1] == "prm":
+            name = dec(w[2])
+            want = 200 if name else 400
+            reg.pop(name, None)
+        else:
+            continue
+        exp = "code=%d list=%s" % (want, ",".join(sorted("%s|%d|%s" % (k.encode().hex(), v[0], v[1].encode().hex()) for k, v in reg.items())))
+        if o != exp:
+            def show(t):
+                try:
+                    return ["%s weight %s at %s" % (bytes.fromhex(e.split("|")[0]).decode(), e.split("|")[1], bytes.fromhex(e.split("|")[2]).decode()) for e in t.split("list=")[1].split(",") if e]
+                except Exception:      # noqa
+                    return t
+            fails.append("%s answered %s, listing %s; the request itself and the registry before it give %d, listing %s" % (
+                l, o.split()[0], show(o), want, show(exp)))
+            break
+    return fails
+
+
 def parse_list(o):
     res = []
     for ent in [e for e in o[5:].split(",") if e]:
@@ -146,6 +205,11 @@ def check(ctx):
     episodes = C.load_corpus(ID) + [gen_episode(ctx.rng, ctx.thorough()) for _ in range(nep)] + \
         [swap_episode(ctx.rng) for _ in range(100 if ctx.thorough() else 20)] + [churn_episode(ctx.rng)]
     bad = d.check(episodes, oracle=oracle, label="admin")
+    # the add / remove handlers themselves (JSON bodies with some keys missing, listing read back)
+    from . import c10
+    posts = [post_episode(ctx.rng) for _ in range(300 if ctx.thorough() else 60)]
+    C.Differential(ctx, c10.build(ctx)).check(posts, oracle=post_oracle, label="admin-handlers")
+    ctx.cov["admin_handler_episodes"] = len(posts)
     # concurrent admin actors (each the sole owner of one backend name), strategy switches and
     # traffic through the real admin mux: what an actor was told must be what the listing shows
     from . import c12, c16
